@@ -52,6 +52,13 @@ def run(pid, cmd, argv, trusted, known_classifiers):
         c.log("extraction/ocaml build failed:\n" + out[-3000:])
         c.proof_break = c.proof_break or {"kind": "extraction-failed", "log": out[-2000:]}
     cases = c.harness(cmd, timeout=900) if rc == 0 else None
+    if cases is None and rc == 0:
+        # the harness stopped early (watchdog: an evaluation did not return); what it had written
+        # before is still compared, so that a concrete failing program can be reported as well
+        part = os.path.join(common.BUILD, "%s.cases" % pid)
+        if os.path.exists(part) and os.path.getmtime(part) >= c.t0 and os.path.getsize(part) > 0:
+            cases = part
+            c.notes.append("the harness stopped early; the cases written before the stop were compared")
     fails, n, agree, inconcl, twins, unspec, panics = [], 0, 0, 0, 0, 0, []
     twin_ok = {}
     class_diff = 0
@@ -67,18 +74,20 @@ def run(pid, cmd, argv, trusted, known_classifiers):
                         raise RuntimeError("case/model id mismatch %r %r" % (a[0], b[0]))
                     cid, inp, impl, src = int(a[0]), a[1], a[2], unesc(a[3]) if len(a) > 3 else ""
                     model = b[1]
-                    if inp.startswith("bytecode=1"):
+                    if inp.startswith("bytecode="):
                         # tie of the Gallina generator model (coq/Model/GenF0.v) to the real generator
                         listing_n += 1
-                        if model == "NOTF0":
+                        if model in ("NOTF0", "NOTF1"):
                             listing_skipped += 1
                         elif impl != model:
                             listing_bad.append({"source": src, "real_generator": impl, "model_generator": model, "prefix": inp})
                         continue
                     if inp.startswith("twin="):
                         twins += 1
-                        kind, _, orig = inp.split(" ", 1)[0][5:].partition(":")
-                        twin_ok[(int(orig), kind)] = conclusive(impl) and same_obs(impl, model)[0]
+                        kind, orig, shadow = (inp.split(" ", 1)[0][5:].split(":") + ["0"])[:3]
+                        # the twin (no self tail call possible) agrees with the model AND the original program
+                        # has the narrow shape of the finding (its defn's own name is rebound where it matters)
+                        twin_ok[(int(orig), kind)] = conclusive(impl) and same_obs(impl, model)[0] and shadow == "1"
                         continue
                     n += 1
                     if impl.startswith("PANIC"):
